@@ -11,7 +11,7 @@ from __future__ import annotations
 import ast
 
 from .absint import NONE, App, Cfg, ClassV, Const, DictV, ExcV, FuncV, Interp, ListV, ObjV, Out, Policy, Sym
-from .repo import AnalysisError, dotted, norm
+from .repo import AnalysisError, call_name, dotted, norm
 
 # calls that cannot raise (reviewed): logging, container probes, constructors of plain containers
 NO_RAISE_PREFIX = ("_LOGGER.", "logging.", "self.logger.", "cls.logger.")
@@ -68,6 +68,22 @@ class FlowPolicy(Policy):
             return self.globals_[name]
         if self.program is not None and name in self.program.classes:
             return ClassV(name)
+        # module-level `NAME = re.compile(<literal>)` of the unit's own module: the compiled pattern itself
+        rel = getattr(interp, "module_rel", None)
+        if self.program is not None and rel and name.isupper():
+            node = None
+            for r in [rel] + sorted(m for m in self.program.modules if m != rel):
+                try:
+                    node = self.program.module_const(r, name)
+                    break
+                except Exception:  # noqa - not defined in that module (imported from a sibling)
+                    continue
+            if isinstance(node, ast.Call) and call_name(node) == "re.compile" and node.args and isinstance(node.args[0], ast.Constant) and isinstance(node.args[0].value, str):
+                import re as _re
+                try:
+                    return Const(_re.compile(node.args[0].value))
+                except _re.error:
+                    return None
         return None
 
     def label(self, fname, fval):
